@@ -86,7 +86,7 @@ TENV.update({k: getattr(spec_py, k) for k in dir(spec_py) if not k.startswith('_
 def _subst(text, env):
     def rep(m):
         try:
-            return str(eval(m.group(1), dict(TENV), dict(env)))
+            return str(eval(m.group(1), dict(TENV, **env)))
         except Exception as e:
             raise Undecided('template expression {%s}: %s' % (m.group(1), e))
     return re.sub(r'\{\{(.+?)\}\}', rep, text)
@@ -157,7 +157,7 @@ def parse_ctr(path):
                     for v in vals:
                         e2 = dict(e)
                         e2[var] = v
-                        if cond is None or eval(cond, dict(TENV), dict(e2)):
+                        if cond is None or eval(cond, dict(TENV, **e2)):
                             new.append(e2)
                 envs = new
             for env in envs:
@@ -237,13 +237,15 @@ def add_clause(b, kw, rest, path, ln):
         b.split = True
     elif kw == 'noinit':
         b.noinit = True
+    elif kw == 'recursive':
+        b.recursive = True
     elif kw == 'define':
         b.defines = getattr(b, 'defines', []) + rest.split()
     elif kw == 'tier':
         # 'tier thorough'  or  'tier thorough if <python expression over the template variables>'
         if ' if ' in rest:
             t, cond = rest.split(' if ', 1)
-            if eval(cond, dict(TENV), dict(getattr(b, 'env', {}))):
+            if eval(cond, dict(TENV, **getattr(b, 'env', {}))):
                 b.tier = t.strip()
         else:
             b.tier = rest
@@ -346,7 +348,7 @@ def get_unit(unit, blocks, mode):
     u = bs2c.build_unit(unit_json(unit))
     ctrs = {}
     for b in blocks:
-        if b.kind == 'function' and b.unit == unit and (b.mode == mode or (mode != 'IEEE' and b.mode == 'EXACT')):
+        if b.kind == 'function' and (b.mode == mode or (mode != 'IEEE' and b.mode == 'EXACT')):
             if '#' not in b.name or b.name not in ctrs:
                 ctrs.setdefault(b.fn, {}).update(loop_clauses(b))
     u.contracts = ctrs
@@ -415,7 +417,7 @@ def vec_eq_shim(u, m):
 def gen_c(b, blocks, path):
     mode = 'IEEE' if b.mode == 'IEEE' else 'EXACT'
     u = get_unit(b.unit, blocks, b.mode)
-    byname = {x.name: x for x in blocks if x.kind == 'function' and x.unit == b.unit and x.mode == b.mode}
+    byname = {x.name: x for x in blocks if x.kind == 'function' and x.mode == b.mode}
     if b.kind == 'function':
         byname[b.fn] = b          # the variant under proof supplies the clauses of its own function
     roots = []
@@ -865,7 +867,7 @@ def run_block(r, blocks, keep=False, verbose=False):
         return r
     cmd = ['goto-instrument', '--dfcc', hname]
     if b.kind == 'function' and not b.noharness:
-        cmd += ['--enforce-contract', b.fn]
+        cmd += ['--enforce-contract-rec' if getattr(b, 'recursive', False) else '--enforce-contract', b.fn]
     for g in b.replace:
         cmd += ['--replace-call-with-contract', g]
     ctext = open(cfile).read()
@@ -936,7 +938,8 @@ def run_block(r, blocks, keep=False, verbose=False):
     if r.status == 'proved':
         rc, out, err, dt = sh(['goto-cc', '--function', hname,
                                '-DBS_CANARY()=__CPROVER_assert(0, "[canary] end of harness reachable")',
-                               '-DBS_SMALLGRID=1', '-DBS_CAP=8UL'] + defs + ['-o', base + '.c.gb', cfile], 120)
+                               '-DBS_SMALLGRID=1', '-DBS_CAP=8UL', '-DBS_OPAQUE_MUL=1'] + [d for d in defs if d != '-DBS_OPAQUE_MUL'] +
+                              ['-o', base + '.c.gb', cfile], 120)
         try:
             src_gb2, _ = prepare_loops(base + '.c.gb', base + '.cu.gb', ctext, cfile, b)
         except Undecided:
